@@ -180,8 +180,8 @@ def gen_program(rng, size, maxdepth, nnames=4):
     def kind(s):
         return prog[s - 1]['h'] if s else 'module'
 
-    def add(t, n=0, h='', s=None):
-        prog.append({'t': t, 'n': n, 'h': h})
+    def add(t, n=0, h='', s=None, d=0):
+        prog.append({'t': t, 'n': n, 'h': h, 'd': d})
         sc.append(top() if s is None else s)
         return len(prog)
 
@@ -216,10 +216,10 @@ def gen_program(rng, size, maxdepth, nnames=4):
             if k == 'fn' and fresh and rng.random() < 0.5:
                 for n in rng.sample(range(1, nnames + 1), rng.randint(1, 2)):
                     add('bind', n, 'param')
-                if rng.random() < 0.3:
+                if rng.random() < 0.3 and not prog[s - 1]['d']:
                     add('huse', name())
                 continue
-            if k in ('fn', 'class') and fresh and rng.random() < 0.2:
+            if k in ('fn', 'class') and fresh and rng.random() < 0.2 and not prog[s - 1]['d']:
                 add('huse', name())
                 continue
             if x < 0.30:
@@ -235,7 +235,8 @@ def gen_program(rng, size, maxdepth, nnames=4):
                 if not any(sc[i] == s and prog[i]['n'] == n for i in range(len(prog))):
                     add(rng.choice(['global', 'nonlocal', 'global']), n)
             elif x < 0.86 and len(stack) < maxdepth:
-                stack.append(add('open', 0, rng.choice(['fn', 'fn', 'class', 'class', 'lambda', 'comp'])))
+                kd = rng.choice(['fn', 'fn', 'fn', 'class', 'class', 'lambda', 'comp'])
+                stack.append(add('open', 0, kd, d=1 if kd == 'fn' and rng.random() < 0.4 else 0))
             elif x < 0.90 and not any(ls == s for (_, ls) in loops):
                 loops.append((add('loop'), s))
             elif x < 0.94 and loops and loops[-1][1] == s and len(prog) > loops[-1][0]:
@@ -299,12 +300,24 @@ def random_case(arg):
 
 
 # ---------------------------------------------------------------- main
-def exhaustive(ctx, name, nn, mi, md, feat, min_states):
-    cfg = write_cfg(ctx, name + '.cfg', nn, mi, md, feat, tail='INVARIANT DesignOK')
+def emitted(res, what):
+    """Cases printed by a TLC run; every CASE line must parse (guards multi-worker printing)."""
+    part = cases(res)
+    raw = set(l for l in res.stdout.splitlines() if l.startswith('<<"CASE"'))
+    if len(raw) != len(part):
+        raise MachineryError('%s: %d CASE lines printed, %d parsed' % (what, len(raw), len(part)))
+    return part
+
+
+def exhaustive(ctx, name, nn, mi, md, feat, min_states, emit_mod=0):
+    """Design |= Reference over the whole bounded space; optionally the same run emits the
+    slice `Hash(prog) % emit_mod = seed % emit_mod` of its complete programs for replay."""
+    tail = 'INVARIANT DesignOK' + ('\nCONSTRAINT Emit' if emit_mod else '')
+    cfg = write_cfg(ctx, name + '.cfg', nn, mi, md, feat, emit_mod or 1, ctx.seed % (emit_mod or 1), tail)
     res = run_tlc('Scoping', cfg, workers=16, timeout=3000)
-    ctx.add_tlc(res, 'Design|=Reference exhaustive %s NNames=%d MaxItems=%d MaxDepth=%d Feat%s'
-                % (name, nn, mi, md, feat))
-    ctx.log('exhaustive %s: %d states %.0fs' % (name, res.distinct, res.wall))
+    ctx.add_tlc(res, 'Design|=Reference exhaustive %s NNames=%d MaxItems=%d MaxDepth=%d Feat%s%s'
+                % (name, nn, mi, md, feat, (' + emission of slice %d mod %d' % (ctx.seed % emit_mod, emit_mod))
+                   if emit_mod else ''))
     if res.violated:
         st = res.trace[-1]['vars'] if res.trace else {}
         raise MachineryError('Scoping.tla: Design violates Reference by an unnamed mechanism (%s); replay the '
@@ -312,7 +325,9 @@ def exhaustive(ctx, name, nn, mi, md, feat, min_states):
                              % (res.violated, json.dumps(st, default=str)[:1500]))
     if res.distinct < min_states:
         raise MachineryError('vacuity: only %d states in %s' % (res.distinct, name))
-    return res
+    part = emitted(res, name) if emit_mod else []
+    ctx.log('exhaustive %s: %d states %.0fs, %d cases emitted' % (name, res.distinct, res.wall, len(part)))
+    return part
 
 
 def run(ctx):
@@ -325,14 +340,15 @@ def run(ctx):
         ctx.sample({'source': o['src'], 'goto': o.get('goto')})
         return None
 
-    # 1. Design |= Reference, exhaustive
+    # 1. Design |= Reference, exhaustive; 2a. the same runs emit slices of their programs
+    cs = []
     if quick:
-        exhaustive(ctx, 'all', 2, 4, 2, ALL, 50000)
-        exhaustive(ctx, 'core', 2, 5, 3, CORE, 100000)
+        cs += exhaustive(ctx, 'all', 2, 4, 2, ALL, 50000, 11)
+        cs += exhaustive(ctx, 'core', 2, 5, 3, CORE, 100000, 17)
     else:
-        exhaustive(ctx, 'all', 2, 5, 3, ALL, 1000000)
-        exhaustive(ctx, 'mid', 2, 6, 3, MID, 1000000)
-        exhaustive(ctx, 'core', 2, 7, 3, CORE, 1000000)
+        cs += exhaustive(ctx, 'all', 2, 5, 3, ALL, 1000000, 53)
+        cs += exhaustive(ctx, 'mid', 2, 6, 3, MID, 5000000, 997)
+        cs += exhaustive(ctx, 'core', 2, 6, 3, CORE, 1000000, 101)
     ctx.coverage['exhaustive'] = True
 
     # 1b. the deviations are reachable in the Design and reproduce on the real code
@@ -350,25 +366,15 @@ def run(ctx):
     judge(ctx, [o], v, 'tlc-counterexample')
     ctx.coverage['counterexample'] = {'source': o['src'], 'verdict': v[0]['rejects']}
 
-    # 2. emitted slices -> replay: exhaustive slices of the small spaces, TLC simulation beyond
-    emits = [('bfs', 'all', 2, 4, 2, ALL, 3), ('bfs', 'core', 2, 5, 3, CORE, 5),
-             ('sim', 'all', 3, 9, 4, ALL, 2500)] if quick else \
-            [('bfs', 'all', 2, 5, 3, ALL, 41), ('bfs', 'mid', 2, 6, 3, MID, 499), ('bfs', 'core', 2, 6, 3, CORE, 23),
-             ('sim', 'all', 3, 10, 4, ALL, 40000), ('sim', 'mid', 3, 12, 4, MID, 20000)]
-    cs = []
-    for (mode, name, nn, mi, md, feat, k) in emits:
-        if mode == 'bfs':
-            cfg = write_cfg(ctx, 'emit_%s.cfg' % name, nn, mi, md, feat, k, ctx.seed % k, 'CONSTRAINT Emit')
-            res = run_tlc('Scoping', cfg, workers=1, timeout=3000)
-            label = 'case emission %s slice %d mod %d' % (name, ctx.seed % k, k)
-        else:
-            cfg = write_cfg(ctx, 'sim_%s.cfg' % name, nn, mi, md, feat, 1, 0, 'CONSTRAINT Emit')
-            res = run_tlc('Scoping', cfg, workers=1, timeout=3000, simulate='num=%d' % k, depth=60,
-                          seed=ctx.seed + 1)
-            label = 'case emission %s by simulation of %d behaviours' % (name, k)
-        ctx.add_tlc(res, label + ' NNames=%d MaxItems=%d MaxDepth=%d' % (nn, mi, md))
-        part = cases(res)
-        ctx.log('emitted %d cases (%s %s), %d states, %.0fs' % (len(part), mode, name, res.distinct, res.wall))
+    # 2b. beyond the exhaustive bounds: programs from TLC simulation
+    sims = [('all', 3, 9, 4, ALL, 1200)] if quick else [('all', 3, 10, 4, ALL, 40000), ('mid', 3, 12, 4, MID, 20000)]
+    for (name, nn, mi, md, feat, k) in sims:
+        cfg = write_cfg(ctx, 'sim_%s.cfg' % name, nn, mi, md, feat, 1, 0, 'CONSTRAINT Emit')
+        res = run_tlc('Scoping', cfg, workers=1, timeout=3000, simulate='num=%d' % k, depth=60, seed=ctx.seed + 1)
+        ctx.add_tlc(res, 'case emission %s by simulation of %d behaviours NNames=%d MaxItems=%d MaxDepth=%d'
+                    % (name, k, nn, mi, md))
+        part = emitted(res, 'sim ' + name)
+        ctx.log('emitted %d cases (simulation %s), %d states, %.0fs' % (len(part), name, res.distinct, res.wall))
         cs += part
     seen = set()
     cs = [c for c in cs if not (json.dumps([c['prog'], c['sc']]) in seen or seen.add(json.dumps([c['prog'], c['sc']])))]
